@@ -36,6 +36,12 @@ T=[
  ("D17 builder forgets body_length","src/message.rs","        header.body_length = self.body.len() as u64;\n        header.length","        header.length"),
  ("D18 header sum unchecked","src/header.rs","        let expected = (HEADER_SIZE as u64)\n            .checked_add(query_length)\n            .and_then(|n| n.checked_add(body_length));\n        if expected != Some(length) {","        let expected = HEADER_SIZE as u64 + query_length + body_length;\n        if expected != length {"),
  ("D19 reader allocates infallibly","src/io.rs","    let mut query = zeroed_vec(header.query_length as usize)?;","    let mut query = vec![0u8; header.query_length as usize];"),
+ ("H10 blocking read loop: braces around the return","src/server.rs","            Err(e) => return Err(e),\n        }\n        let view = MessageView::from_slice(&buf)?;","            Err(e) => {\n                return Err(e);\n            }\n        }\n        let view = MessageView::from_slice(&buf)?;"),
+ ("H11 async read loop: named elapsed value","src/async_server.rs","                Ok(r) => r?,\n                Err(_) => return Ok(()),","                Ok(r) => r?,\n                Err(_elapsed) => return Ok(()),"),
+ ("H12 blocking read loop: comment added","src/server.rs","            Ok(()) => {}\n            Err(RepeError::Io(ref e)) if e.kind() == std::io::ErrorKind::UnexpectedEof => break,","            Ok(()) => {}\n            // peer closed between frames\n            Err(RepeError::Io(ref e)) if e.kind() == std::io::ErrorKind::UnexpectedEof => break,"),
+ ("D20 blocking read loop continues after a read timeout (seed C02-P)","src/server.rs","            Err(e) => return Err(e),\n        }\n        let view = MessageView::from_slice(&buf)?;","            Err(RepeError::Io(ref e)) if matches!(e.kind(), std::io::ErrorKind::WouldBlock | std::io::ErrorKind::TimedOut) => continue,\n            Err(e) => return Err(e),\n        }\n        let view = MessageView::from_slice(&buf)?;"),
+ ("D21 async read loop continues after its timeout","src/async_server.rs","                Err(_) => return Ok(()),","                Err(_) => continue,"),
+ ("D22 blocking read loop logs and continues on any error","src/server.rs","            Err(e) => return Err(e),\n        }\n        let view = MessageView::from_slice(&buf)?;","            Err(e) => {\n                eprintln!(\"read failed: {e}\");\n                continue;\n            }\n        }\n        let view = MessageView::from_slice(&buf)?;"),
  ("X1 function renamed (not locatable)","src/message.rs","pub(crate) fn stamp_response_query(","pub(crate) fn stamp_query_into_response("),
 ]
 for name,f,old,new in T:
